@@ -7,61 +7,72 @@ clear with the delete trigger) after the `fix:` commits listed in findings/C08_v
 Spec: Spec/Members.lean (live crates, live tracks, the (crate, track) pairs; add idempotent, remove of an
 absent pair a no-op, clear, track / crate removal erase).
 `absM d` (Proofs/V2Abs.lean): crates = Playlist ids, tracks = Track ids, pairs = (listId, trackId) of the
-PlaylistEntity rows in row order.  `judgeM` / `specRunM`: the Spec judge driven by the Model's own answers,
-translating each API call into Spec operations exactly as the oracle of the tie does.
-Histories range over the crate / track API (`apiOp`: everything but the three table-level
-playlist_entity_table operations, which can address lists and tracks that do not exist).
+PlaylistEntity rows of the library's OWN database (uuid tag 0) in row order.  `judgeM` / `specRunM`: the Spec
+judge driven by the Model's own answers and the Spec forest of C07 (`membersOps` translates each API call into
+Spec operations exactly as the oracle of the tie does; it reads nothing of the Model).
+Histories range over `memOp`: the crate / track API, interleaved with table-level additions of entries of
+OTHER databases (uuid tag ≠ 0) to any list — what other software sharing the library does; such entries may
+carry the same numeric track ids as the library's own tracks and must never be confused with them.
+(Table-level removals, and table-level own-uuid entries for lists / tracks that do not exist, are outside what
+"added to a crate" means.)
 -/
 import Proofs.V2MembersQueries
+import Proofs.V2Run
 
 namespace EngineModel.Properties.C08V2
 open EngineModel EngineModel.Db.Chain EngineModel.Db.V2 EngineModel.Spec
 
 /-- Refinement, one step: the membership Spec allows what the Model does, the membership state afterwards is
 the abstraction of the Model state afterwards, and the invariants are kept. -/
-theorem C08V2_step_refines {S : Ord} {d : Db} (h : Inv S d) (op : Db.V2.Op) (hapi : apiOp op = true) :
-    judgeM (absM d) d op (step d op).2 = some (absM (step d op).1) ∧ Inv (ordStep S d op) (step d op).1 :=
-  ⟨(mstep h.mem h.pl h.ch op hapi).judge, inv_step h op hapi⟩
+theorem C08V2_step_refines {S : Ord} {d : Db} (h : Inv S d) (op : Db.V2.Op) (hm : memOp op = true) :
+    judgeM (absM d) (absF d) op (step d op).2 = some (absM (step d op).1) ∧
+    Inv (ordNext S (absF d) op (step d op).2) (step d op).1 :=
+  ⟨(mstep h.mem h.pl h.ch op hm).judge, inv_step h op hm⟩
 
-/-- Refinement, all histories of the crate / track API: the Spec.Members judge never objects, and the state it
-tracks is exactly the abstraction of the Model's tables. -/
-theorem C08V2_refines (ops : List Db.V2.Op) (hapi : ops.all apiOp = true) :
-    specRunM Db.empty Members.empty ops = some (absM (run Db.empty ops)) :=
-  specRunM_eq inv_empty ops hapi
+/-- Refinement, all histories: the Spec.Forest and Spec.Members judges, driven by the Model's answers only,
+never object, and the states they track are exactly the abstractions of the Model's tables. -/
+theorem C08V2_refines (ops : List Db.V2.Op) (hm : ops.all memOp = true) :
+    specRunM Db.empty Forest.empty Members.empty ops = some (absF (run Db.empty ops), absM (run Db.empty ops)) := by
+  obtain ⟨_, _, _, h⟩ := inv_hist ops hm
+  exact h
 
-/-- Invariant: no (crate, track) pair is stored twice, every entry refers to a live crate and a live track,
-track ids are a key. -/
-theorem C08V2_invariant (ops : List Db.V2.Op) (hapi : ops.all apiOp = true) :
-    MemInv (run Db.empty ops) :=
-  (inv_run inv_empty ops hapi).mem
+/-- Invariant: every entry of the own database refers to a live crate and a live track, no (crate, database,
+track) triple is stored twice, track ids are a key. -/
+theorem C08V2_invariant (ops : List Db.V2.Op) (hm : ops.all memOp = true) :
+    MemInv (run Db.empty ops) ∧ PairsOk (cores (run Db.empty ops).pe) := by
+  obtain ⟨_, _, h, _⟩ := inv_hist ops hm
+  exact ⟨h.mem, h.ch.pairs⟩
 
 /-- crate.tracks() is exactly the Spec's contents of the crate — the tracks added and not since removed —
-with no duplicates and no removed tracks (and it never meets the missing-tail undefined behaviour). -/
-theorem C08V2_tracks_agree (ops : List Db.V2.Op) (hapi : ops.all apiOp = true) (c : Int) :
-    let d := run Db.empty ops
-    ∃ l, qTracks d c = .ok l ∧ l.Nodup ∧ (∀ t, t ∈ l ↔ t ∈ Members.tracksOf (absM d) c) ∧ ∀ t ∈ l, t ∈ qAllTracks d :=
-  let hI := inv_run inv_empty ops hapi
-  qTracks_spec hI.ch hI.mem c
+with no duplicates and no removed tracks (and it never meets the missing-tail undefined behaviour), whatever
+entries of other databases the playlist holds besides. -/
+theorem C08V2_tracks_agree (ops : List Db.V2.Op) (hm : ops.all memOp = true) (c : Int) :
+    ∃ l, qTracks (run Db.empty ops) c = .ok l ∧ l.Nodup ∧
+      (∀ t, t ∈ l ↔ t ∈ Members.tracksOf (absM (run Db.empty ops)) c) ∧ ∀ t ∈ l, t ∈ qAllTracks (run Db.empty ops) := by
+  obtain ⟨_, _, hI, _⟩ := inv_hist ops hm
+  exact qTracks_spec hI.ch hI.mem c
 
 /-- Frame: an operation changes the membership of no pair it is not about — add_track / remove_track of
 (c, t) only (c, t); clear_tracks(c) only pairs of c; remove_track(t) only pairs of t; remove_crate only pairs of
-the removed crates; every other operation none (`touches`, Proofs/V2MembersQueries.lean). -/
-theorem C08V2_frame (ops : List Db.V2.Op) (hapi : ops.all apiOp = true) (op : Db.V2.Op) (hop : apiOp op = true)
+the removed crates; every other operation (incl. a foreign entry being added) none
+(`touches`, Proofs/V2MembersQueries.lean). -/
+theorem C08V2_frame (ops : List Db.V2.Op) (hm : ops.all memOp = true) (op : Db.V2.Op) (hop : memOp op = true)
     (p : Int × Int)
-    (hp : ∀ mop ∈ membersOps (run Db.empty ops) op (step (run Db.empty ops) op).2, ¬ touches mop p) :
-    p ∈ (absM (step (run Db.empty ops) op).1).pairs ↔ p ∈ (absM (run Db.empty ops)).pairs :=
-  step_frame (inv_run inv_empty ops hapi) op hop p hp
+    (hp : ∀ mop ∈ membersOps (absF (run Db.empty ops)) op (step (run Db.empty ops) op).2, ¬ touches mop p) :
+    p ∈ (absM (step (run Db.empty ops) op).1).pairs ↔ p ∈ (absM (run Db.empty ops)).pairs := by
+  obtain ⟨_, _, hI, _⟩ := inv_hist ops hm
+  exact step_frame hI op hop p hp
 
 /-- … in particular for add_track / remove_track on (c, t): every other pair keeps its membership. -/
-theorem C08V2_frame_add_remove (ops : List Db.V2.Op) (hapi : ops.all apiOp = true) (c t : Int) (p : Int × Int)
+theorem C08V2_frame_add_remove (ops : List Db.V2.Op) (hm : ops.all memOp = true) (c t : Int) (p : Int × Int)
     (hp : p ≠ (c, t)) :
     let d := run Db.empty ops
     (p ∈ (absM (step d (.addTrack c t)).1).pairs ↔ p ∈ (absM d).pairs) ∧
     (p ∈ (absM (step d (.removeTrackFrom c t)).1).pairs ↔ p ∈ (absM d).pairs) := by
-  refine ⟨C08V2_frame ops hapi _ rfl p ?_, C08V2_frame ops hapi _ rfl p ?_⟩ <;>
-  · intro mop hm
-    simp only [membersOps, List.mem_singleton] at hm
-    subst hm
+  refine ⟨C08V2_frame ops hm _ rfl p ?_, C08V2_frame ops hm _ rfl p ?_⟩ <;>
+  · intro mop hmo
+    simp only [membersOps, List.mem_singleton] at hmo
+    subst hmo
     exact hp
 
 /-- Adding a track that is already present is a no-op: crate::add_track returns normally and nothing changes;
@@ -72,45 +83,100 @@ theorem C08V2_add_present_noop (d : Db) (c t u : Int) (e : Row Ent) (h : peFind 
     step d (.peAddBack c t u false) = (d, .ok (some e.id)) ∧
     step d (.peAddBack c t u true) = (d, .throw .invalid_argument) ∧
     (u = 0 → plExists d c = true → t ∈ d.tracks → step d (.addTrack c t) = (d, .ok (some e.id))) := by
-  refine ⟨by simp [step, peAddBack, h], by simp [step, peAddBack, h], ?_⟩
+  refine ⟨by simp [Db.V2.step, peAddBack, h], by simp [Db.V2.step, peAddBack, h], ?_⟩
   intro hu h1 h2
   subst hu
-  simp [step, peAddBack, h, h1, h2]
+  simp [Db.V2.step, peAddBack, h, h1, h2]
 
-/-- Removing a track that is not in the crate is a no-op. -/
-theorem C08V2_remove_absent_noop (d : Db) (c t : Int) (h : peGet d c t = none) :
+/-- Removing a track that is not in the crate is a no-op — also when an entry of ANOTHER database with the same
+numeric track id is in the playlist. -/
+theorem C08V2_remove_absent_noop (d : Db) (c t : Int) (h : peFind d c t 0 = none) :
     step d (.removeTrackFrom c t) = (d, .ok none) := by
-  simp [step, h]
+  simp [Db.V2.step, h]
+
+/-- crate::remove_track removes the library's OWN entry for the track, never an entry of another database that
+shares the numeric track id (fixed in /repo 9a475eb: the lookup ignored the database uuid): the removed row has
+uuid tag 0, and every foreign entry of the playlist is still listed afterwards, in its place. -/
+theorem C08V2_remove_track_spares_foreign_entries {S : Ord} {d : Db} (h : ChInv S d) (c t : Int) :
+    ∃ rows, qEntities (step d (.removeTrackFrom c t)).1 c = .ok rows ∧
+      rows = ((S.ents c).filter (fun p => !(p.2.track == t && p.2.uuid == 0))).map (fun p => (p.1, p.2.track, p.2.uuid)) := by
+  have hI' := chInv_step h (.removeTrackFrom c t) rfl
+  refine ⟨_, qEntities_eq hI' c, ?_⟩
+  congr 1
+  cases hg : peFind d c t 0 with
+  | none =>
+    have hstep : step d (.removeTrackFrom c t) = (d, .ok none) := by simp [Db.V2.step, hg]
+    have hnone := h.find_none hg
+    simp only [ordStep, ordNext, hstep, ordOk, hnone]
+    symm
+    apply List.filter_eq_self.mpr
+    intro p hp
+    unfold Ord.find at hnone
+    have := List.find?_eq_none.mp hnone p hp
+    by_cases ht : p.2.track = t
+    · have hu : p.2.uuid ≠ 0 := by intro e; simp [ht, e] at this
+      simp [ht, hu]
+    · simp [ht]
+  | some e =>
+    have hstep : step d (.removeTrackFrom c t) = ({ d with pe := deleteKeyed fires d.pe c e.id }, .ok none) := by
+      simp [Db.V2.step, hg]
+    have hsome := h.find_some hg
+    simp only [ordStep, ordNext, hstep, ordOk, hsome, setKeyE_same]
+    unfold dropEnt
+    apply List.filter_congr
+    intro p hp
+    obtain ⟨_, _, _, hev⟩ := lookup_core hg
+    by_cases hid : p.1 = e.id
+    · have hin : (e.id, e.val) ∈ S.ents c := by
+        have hp1 := List.mem_of_find?_eq_some hsome; exact hp1
+      have := pair_eq_of_fst (h.re.nodup c) hp hin hid
+      rw [this]
+      simp [hev]
+    · have hne : ¬ (p.2.track = t ∧ p.2.uuid = 0) := by
+        intro hh
+        have hp2 : (fun q : Int × Ent => q.2.track == t && q.2.uuid == 0) p = true := by simp [hh.1, hh.2]
+        -- the Spec's listing has at most one entry for (t, own): the one found
+        obtain ⟨r, hr, e1, e2, e3⟩ := h.row_of_entry hp
+        obtain ⟨hce, _, hel, _⟩ := lookup_core hg
+        have := h.pairs.pair_unique (core r) (mem_cores.mpr ⟨r, hr, rfl⟩) (core e) hce (by simp [core, e2, hel])
+          (by simp only [core]; rw [e3, hev]; exact ent_eq.mpr hh)
+        exact hid (by rw [← e1]; exact congrArg (·.1) this)
+      have h1 : (p.1 != e.id) = true := by simpa using hid
+      rw [h1]
+      by_cases ht : p.2.track = t
+      · have hu : p.2.uuid ≠ 0 := fun e' => hne ⟨ht, e'⟩
+        simp [ht, hu]
+      · simp [ht]
 
 /-- Removing a track from the library erases it from every crate; removing a crate erases the contents of the
 crate and of its whole subtree. -/
-theorem C08V2_removal_erases (ops : List Db.V2.Op) (hapi : ops.all apiOp = true) :
+theorem C08V2_removal_erases (ops : List Db.V2.Op) (hm : ops.all memOp = true) :
     let d := run Db.empty ops
     (∀ t, t ∈ qAllTracks d → ∀ c, (c, t) ∉ (absM (step d (.removeTrack t)).1).pairs) ∧
     (∀ c, qValid d c = true → ∀ x t, (x = c ∨ x ∈ qDescendants d c) → (x, t) ∉ (absM (step d (.removeCrate c)).1).pairs) := by
   intro d
-  have hI := inv_run inv_empty ops hapi
+  obtain ⟨_, _, hI, _⟩ := inv_hist ops hm
   constructor
-  · intro t ht c hm
+  · intro t ht c hmem
     have hI' := inv_step hI (.removeTrack t) rfl
-    obtain ⟨r, hr, _, hv⟩ := mem_pairs_iff.mp hm
-    have hlive := (hI'.mem.live (core r) (mem_cores.mpr ⟨r, hr, rfl⟩)).2
+    obtain ⟨r, hr, _, hv, hu⟩ := mem_pairs_iff.mp hmem
+    have hlive := (hI'.mem.live (core r) (mem_cores.mpr ⟨r, hr, rfl⟩) hu).2
     have hstep : (step d (.removeTrack t)).1.tracks = d.tracks.filter (· != t) := by
       have hct : d.tracks.contains t = true := List.contains_iff_mem.mpr ht
-      simp only [step, hct, if_true]
+      simp only [Db.V2.step, hct, if_true]
     rw [hstep] at hlive
     simp only [core] at hlive
     have := (List.mem_filter.mp hlive).2
     simp [hv] at this
-  · intro c hc x t hx hm
+  · intro c hc x t hx hmem
     have hI' := inv_step hI (.removeCrate c) rfl
-    obtain ⟨r, hr, hk, _⟩ := mem_pairs_iff.mp hm
-    have hlive := (hI'.mem.live (core r) (mem_cores.mpr ⟨r, hr, rfl⟩)).1
+    obtain ⟨r, hr, hk, _, hu⟩ := mem_pairs_iff.mp hmem
+    have hlive := (hI'.mem.live (core r) (mem_cores.mpr ⟨r, hr, rfl⟩) hu).1
     simp only [core] at hlive
     rw [hk] at hlive
     have hn : (ids d.pl).Nodup := hI.ch.rk.ids_nodup
     have hstep : step d (.removeCrate c) = (plRemove d c, .ok none) := by
-      simp [step, show plExists d c = true from hc]
+      simp [Db.V2.step, show plExists d c = true from hc]
     rw [hstep] at hlive
     have habs := absF_plRemove hn hI.ch.rk.id_pos (plExists_iff.mp hc)
     rw [← absF_ids, habs] at hlive
@@ -120,18 +186,20 @@ theorem C08V2_removal_erases (ops : List Db.V2.Op) (hapi : ops.all apiOp = true)
     · exact h2 e
     · rw [e, (mem_descendantIds.mp hx).2] at h3; exact absurd h3 (by simp)
 
-/-! ### non-vacuity: ids of crates, tracks and entity rows all differ -/
+/-! ### non-vacuity: ids of crates, tracks and entity rows all differ; a foreign entry shares a track id -/
 
 def sampleOps : List Db.V2.Op :=
   [.createTrack, .createTrack, .removeTrack 1, .createTrack, .createRoot [120], .removeCrate 1, .createRoot [97],
-   .createSub 2 [98], .createRoot [99], .addTrack 2 3, .addTrack 3 2, .addTrack 3 3, .addTrack 3 3, .removeTrackFrom 3 3,
-   .addTrack 4 2, .clearTracks 4, .addTrack 4 3]
+   .createSub 2 [98], .createRoot [99], .addTrack 2 3, .addTrack 3 2, .peAddBack 3 3 7 false, .addTrack 3 3, .addTrack 3 3,
+   .removeTrackFrom 3 3, .addTrack 4 2, .clearTracks 4, .addTrack 4 3]
 
-example : sampleOps.all apiOp = true := by decide
+example : sampleOps.all memOp = true := by decide
 example : (absM (run Db.empty sampleOps)).pairs = [(2, 3), (3, 2), (4, 3)] := by decide
 example : qTracks (run Db.empty sampleOps) 3 = .ok [2] := by decide
-example : (run Db.empty sampleOps).pe.map (·.id) = [1, 2, 5] := by decide
-example : (peGet (run Db.empty sampleOps) 3 2).isSome = true := by decide
-example : peGet (run Db.empty sampleOps) 3 3 = none := by decide
+/-- the foreign entry (track id 3 of database 7) survived remove_track of the own track 3 -/
+example : qEntities (run Db.empty sampleOps) 3 = .ok [(2, 2, 0), (3, 3, 7)] := by decide
+example : (run Db.empty sampleOps).pe.map (·.id) = [1, 2, 3, 6] := by decide
+example : (peFind (run Db.empty sampleOps) 3 2 0).isSome = true := by decide
+example : peFind (run Db.empty sampleOps) 3 3 0 = none := by decide
 
 end EngineModel.Properties.C08V2
